@@ -262,6 +262,8 @@ def render_bfg(st):
     lang = st['lang']
     L = ['# generated by vf.gen.c07gen', "project('c07', version='1.0')"]
     dirs = st['incdirs']
+    if st.get('incabs'):
+        dirs = [SRC_MARK + '/' + d for d in dirs]
     if mode in ('hdrdir', 'optobj', 'global'):
         for i, d in enumerate(dirs):
             L.append('inc%d = header_directory(%r)' % (i, d))
@@ -651,6 +653,9 @@ def gen_state(rng, lang, p_special, special_incdir):
           'incdirs_plain': ['inc'], 'headers': {}, 'tus': {}}
     if special_incdir:
         st['incdirs'] = [rng.choice(SPECIAL_INCDIRS)]
+    elif st['incmode'] != 'optraw' and rng.random() < 0.3:
+        # the include directories named by their absolute paths (they still are the project's)
+        st['incabs'] = True
     if rng.random() < 0.5:
         st['incdirs'].append('inc2' if rng.random() < 0.6 else rng.choice(
             [d for d in SPECIAL_INCDIRS if d not in st['incdirs']]))
